@@ -3,12 +3,14 @@ package simrt
 import (
 	"cmp"
 	"fmt"
+	"hash/maphash"
 	"iter"
 	"os"
 	"runtime"
 	"slices"
 	"strconv"
 	"time"
+	"unsafe"
 )
 
 // ---- simulated clock ----
@@ -244,4 +246,71 @@ func NumCPU() int {
 		return simProcs
 	}
 	return runtime.NumCPU()
+}
+
+// ---- hash/maphash seeds ----
+
+var (
+	hseedSalt = func() uint64 {
+		if v := os.Getenv("VSIM_HSEED"); v != "" {
+			if n, err := strconv.ParseUint(v, 10, 64); err == nil {
+				return n
+			}
+		}
+		return 0
+	}()
+	hseedN uint64
+)
+
+//go:norace
+func nextHSeed() uint64 {
+	hseedN++
+	x := mix(hseedSalt*0x9e3779b97f4a7c15 + hseedN)
+	if x == 0 {
+		x = 1
+	}
+	return x
+}
+
+// MakeSeed replaces maphash.MakeSeed in instrumented library code: the k-th
+// seed a simulator process hands out is a fixed function of k and of the batch
+// number (VSIM_HSEED), so that a table indexed by a seeded hash lays itself out
+// the same way when a batch is re-executed or a finding replayed, and
+// differently from batch to batch. (maphash.Seed is a one-word struct; a zero
+// word means "unset" and is avoided.)
+func MakeSeed() maphash.Seed {
+	var sd maphash.Seed
+	if unsafe.Sizeof(sd) != 8 {
+		return maphash.MakeSeed()
+	}
+	*(*uint64)(unsafe.Pointer(&sd)) = nextHSeed()
+	return sd
+}
+
+//go:norace
+func seedWord(sd maphash.Seed) uint64 {
+	if unsafe.Sizeof(sd) != 8 {
+		return 0
+	}
+	return *(*uint64)(unsafe.Pointer(&sd))
+}
+
+// MHString and MHBytes replace maphash.String and maphash.Bytes: the runtime's
+// hash functions are keyed with a random value per process whatever the seed
+// is, so the simulator uses a keyed hash of its own (a function of seed and
+// text only).
+func MHString(sd maphash.Seed, s string) uint64 {
+	h := seedWord(sd) ^ 0xcbf29ce484222325
+	for i := 0; i < len(s); i++ {
+		h = (h ^ uint64(s[i])) * 0x100000001b3
+	}
+	return mix(h ^ uint64(len(s)))
+}
+
+func MHBytes(sd maphash.Seed, b []byte) uint64 {
+	h := seedWord(sd) ^ 0xcbf29ce484222325
+	for i := 0; i < len(b); i++ {
+		h = (h ^ uint64(b[i])) * 0x100000001b3
+	}
+	return mix(h ^ uint64(len(b)))
 }
